@@ -300,13 +300,20 @@ func c03StopOnError(c *Check, a *Anchors) {
 }
 
 func c03CmdIgnoreScoped(c *Check, a *Anchors) {
-	c.Rule("cmd-ignore-scoped", "decision table over all paths of the command runner: a non-nil error of execext.RunCommand becomes nil IFF it is an exit status AND the command has ignore_error; otherwise the error itself is returned")
-	fn := c.P.SSAFunc(a.CmdRunner)
+	c.Rule("cmd-ignore-scoped", "decision table over all paths of the command runner (and of the helper it hands the shell execution to, whose call then stands for RunCommand in the runner): a non-nil error of execext.RunCommand becomes nil IFF it is an exit status AND the command has ignore_error; otherwise the error itself is returned")
+	c03CmdIgnoreScopedIn(c, a, a.CmdRunner)
+	if a.ShellExec != nil && a.ShellExec != a.CmdRunner {
+		c03CmdIgnoreScopedIn(c, a, a.ShellExec)
+	}
+}
+
+func c03CmdIgnoreScopedIn(c *Check, a *Anchors, runner *FuncBody) {
+	fn := c.P.SSAFunc(runner)
 	if fn == nil {
 		c.Errorf("cmd-ignore-scoped: no SSA for the command runner")
 		return
 	}
-	c.Fn(a.CmdRunner)
+	c.Fn(runner)
 	pe := &PathEnum{Fn: fn, MaxRevisit: revisit(), Event: a.ssaLabel}
 	pe.Name = isExitName(pe)
 	pe.Run()
@@ -320,7 +327,7 @@ func c03CmdIgnoreScoped(c *Check, a *Anchors) {
 		}
 	}
 	if rcKey == "" {
-		c.Errorf("cmd-ignore-scoped: execext.RunCommand call not found in %s", fnDisplay(a.CmdRunner))
+		c.Errorf("cmd-ignore-scoped: execext.RunCommand call not found in %s", fnDisplay(runner))
 		return
 	}
 	exit, ignore := "isexit("+rcKey+")", "field:Cmd.IgnoreError"
@@ -350,7 +357,7 @@ func c03CmdIgnoreScoped(c *Check, a *Anchors) {
 	if len(bad) > 3 {
 		bad = bad[:3]
 	}
-	c.Decide(len(bad) == 0, "cmd-ignore-scoped", "table@"+fnDisplay(a.CmdRunner), a.CmdRunner.Body.Pos(),
+	c.Decide(len(bad) == 0, "cmd-ignore-scoped", "table@"+fnDisplay(runner), runner.Body.Pos(),
 		fmt.Sprintf("holds on all %d paths that run the command", n), strings.Join(bad, " || "))
 }
 
